@@ -17,7 +17,7 @@ func init() {
 }
 
 func runC08(c *Ctx) {
-	c.rule("C08-R7", "PAIR: every Lock/RLock of the shared providers (pkg/database, pkg/redis, pkg/mongodb mocks) and of pkg/interpreter is released on every path to a return: one request cannot wedge the provider for all others")
+	c.rule("C08-R7", "PAIR: every Lock/RLock of the shared providers (pkg/database, pkg/redis, pkg/mongodb mocks) and of pkg/interpreter is released on every path to a return: one request cannot wedge the provider for all others; REACQ: no method calls, while it holds its receiver's mutex, a method of the same receiver that acquires that mutex again (sync mutexes are not re-entrant; a second RLock blocks once a writer waits)")
 	c.Sites["C08-R7#acquire-sites"] = lockReleaseAudit(c, "C08-R7", []string{"pkg/database", "pkg/redis", "pkg/mongodb", interpPkg})
 	c.floor("C08-R7", 20)
 	// ---- R8 shared slices are not extended in place for one request / one registration
